@@ -350,7 +350,7 @@ class Gen:
         x = self.fresh("x")
         self.emit(f"loopvar {x} {w}")
         self.vars[x] = ('u', w)
-        kind = self.r.choice(["hold", "hold_neg", "counter", "toggle"])
+        kind = self.r.choice(["hold", "hold", "hold_neg", "hold_neg", "counter", "toggle"])
         m = self.fresh("t")
         if kind == "hold":
             self.emit(f"mux {m} {self.get_b()} {x} {self.get_u(w)}")
@@ -365,7 +365,7 @@ class Gen:
         line = f"reg {q} {m}"
         if self.r.random() < 0.7:
             line += " rst " + "".join(self.r.choice("01") for _ in range(w))
-        if self.r.random() < 0.3:
+        if self.r.random() < 0.5:     # hold mux AND an explicit enable: two cooperating conditions (foldRegisterMuxEnableLoops)
             line += f" en {self.get_b()}"
         self.emit(line)
         self.vars[q] = ('u', w)
